@@ -8,6 +8,7 @@ import (
 	"encoding/json"
 	"fmt"
 	hclog "github.com/hashicorp/go-hclog"
+	"github.com/hashicorp/go-plugin/verifharness/sched"
 	"net"
 	"os"
 	"os/exec"
@@ -16,6 +17,7 @@ import (
 	"strconv"
 	"strings"
 	"sync"
+	"sync/atomic"
 	"syscall"
 	"testing"
 	"time"
@@ -35,17 +37,18 @@ type killCase struct {
 }
 
 type killObs struct {
-	KillMs       []int64 `json:"kill_ms"`
-	GoneAtReturn []bool  `json:"gone_at_return"`
-	ExitedAtRet  []bool  `json:"exited_at_return"`
-	Marker       bool    `json:"marker"`
-	Panic        bool    `json:"panic"`
-	PanicMsg     string  `json:"panic_msg,omitempty"`
-	StartOK      bool    `json:"start_ok"`
-	Err          string  `json:"err,omitempty"`
-	MaxMs        int64   `json:"max_ms"`
-	AllGone      bool    `json:"all_gone"`
-	AllExited    bool    `json:"all_exited"`
+	KillMs       []int64                  `json:"kill_ms"`
+	GoneAtReturn []bool                   `json:"gone_at_return"`
+	ExitedAtRet  []bool                   `json:"exited_at_return"`
+	Marker       bool                     `json:"marker"`
+	Panic        bool                     `json:"panic"`
+	PanicMsg     string                   `json:"panic_msg,omitempty"`
+	StartOK      bool                     `json:"start_ok"`
+	Err          string                   `json:"err,omitempty"`
+	MaxMs        int64                    `json:"max_ms"`
+	AllGone      bool                     `json:"all_gone"`
+	AllExited    bool                     `json:"all_exited"`
+	Events       []map[string]interface{} `json:"events,omitempty"`
 }
 
 type startedPlugin struct {
@@ -198,6 +201,19 @@ func applyBehaviour(c killCase, sp *startedPlugin, stub *vp.Stub) error {
 	return nil
 }
 
+// killRecs routes the client.kill.* hook events (process-wide handler) to the recorder of the case
+// that owns the *plugin.Client the event is about.
+var killRecs sync.Map
+
+func killHook(ev string, obj interface{}, a, b int64) {
+	if !strings.HasPrefix(ev, "client.kill.") {
+		return
+	}
+	if r, ok := killRecs.Load(obj); ok {
+		r.(*sched.Recorder).Hook(ev, "client", a, b)
+	}
+}
+
 func runKillCase(c killCase, bin, tmp string) killObs {
 	var o killObs
 	if c.Pattern == "cleanup" {
@@ -212,6 +228,10 @@ func runKillCase(c killCase, bin, tmp string) killObs {
 		}
 		return o
 	}
+	rec := sched.NewRecorder()
+	killRecs.Store(sp.pair.Client, rec)
+	defer killRecs.Delete(sp.pair.Client)
+	var callNo int32
 	n := 1
 	switch c.Pattern {
 	case "repeated":
@@ -229,10 +249,13 @@ func runKillCase(c killCase, bin, tmp string) killObs {
 			}
 		}()
 		t0 := time.Now()
+		who := "k" + strconv.Itoa(int(atomic.AddInt32(&callNo, 1)))
+		rec.Log("call.kill", "client", 0, 0, map[string]interface{}{"c": who})
 		sp.pair.Client.Kill()
 		ms := time.Since(t0).Milliseconds()
 		gone := vp.PidGone(sp.pid)
 		ex := sp.pair.Client.Exited()
+		rec.Log("ret.kill", "client", 0, 0, map[string]interface{}{"c": who, "gone": gone, "exited": ex})
 		mu.Lock()
 		o.KillMs = append(o.KillMs, ms)
 		o.GoneAtReturn = append(o.GoneAtReturn, gone)
@@ -256,6 +279,13 @@ func runKillCase(c killCase, bin, tmp string) killObs {
 		}
 	}
 	finishKillObs(&o, sp)
+	for _, e := range rec.Events() {
+		m := map[string]interface{}{"ev": e.Ev, "a": e.A, "b": e.B, "g": e.G, "t": e.T}
+		for k, v := range e.F {
+			m[k] = v
+		}
+		o.Events = append(o.Events, m)
+	}
 	return o
 }
 
@@ -363,6 +393,8 @@ func TestKillCases(t *testing.T) {
 	ow := newObsWriter(outp)
 	defer ow.close()
 	cw := newCaseWatch(ow, 90*time.Second)
+	plugin.VerifSetHook(killHook)
+	defer plugin.VerifSetHook(nil)
 	workers := runtime.GOMAXPROCS(0)
 	if w, err := strconv.Atoi(os.Getenv("VERIF_WORKERS")); err == nil && w > 0 {
 		workers = w
